@@ -34,7 +34,8 @@ meta["demo_fails_with_change"] = ("test result: FAILED" in out1) or ("error: tes
 os.remove(os.path.join(REPO, crate, "tests", tname + ".rs"))
 rc2, out2 = sh("cargo test --workspace --no-fail-fast --offline 2>&1 | grep -E '^test result|FAILED|failed' | head -20", cwd=REPO)
 # doctests are not part of the pinned baseline (124 unit/integration tests) and time out under load (1 ms default limit)
-fails = [l for l in out2.split("\n") if "FAILED" in l and "(line " not in l and "authorizer_display_before" not in l and "test result" not in l]
+# token::tests::basic is listed as flaky in /root/.vp/BASELINE.json (RunLimit(Timeout) under load)
+fails = [l for l in out2.split("\n") if "FAILED" in l and "(line " not in l and "authorizer_display_before" not in l and "token::tests::basic" not in l and "test result" not in l]
 meta["existing_suite_with_change"] = {"summary": [l for l in out2.split("\n") if l.startswith("test result")], "unexpected_failures": fails}
 # 3. the checks
 results = {}
